@@ -34,17 +34,23 @@ class Body:
         self.on_raise = on_raise
         self.seen_verbatim: set[str] = set()
         self.n = 0
+        self.out: list[str] = []
+        self.snaps: dict[str, tuple] = {}
+
+    def snap(self, name: str, env: dict):
+        """remember the let-chain so far and the variable bindings (a point is appended here)"""
+        self.snaps[name] = (list(self.out), dict(env))
 
     def key(self, tgt) -> str:
         if isinstance(tgt, ast.Name):
             return tgt.id
-        if isinstance(tgt, ast.Attribute) and isinstance(tgt.value, ast.Name) and tgt.value.id == 'self':
-            return 'self.' + tgt.attr
+        if isinstance(tgt, ast.Attribute) and isinstance(tgt.value, ast.Name) and tgt.value.id in ('self', 'pt'):
+            return tgt.value.id + '.' + tgt.attr
         raise Untranslatable(f'{self.where}: assignment target {_norm(tgt)}')
 
     def fresh(self, key: str) -> str:
         self.n += 1
-        return key.replace('self.', '') + f'_{self.n}'
+        return key.replace('self.', '').replace('pt.', 'pt_') + f'_{self.n}'
 
     def assign(self, st, env):
         """(key, expr text) for an assignment statement."""
@@ -66,7 +72,7 @@ class Body:
         return [env[k] for k in keys]
 
     def run(self, stmts, tail) -> str:
-        out = []
+        out = self.out
         env = self.env
         for i, st in enumerate(stmts):
             txt = _norm(st)
@@ -130,6 +136,374 @@ class Body:
         return '\n'.join(out)
 
 
+class PartError(Untranslatable):
+    """extraction failure of one named part (the harness reports `extract:<part>`)"""
+
+    def __init__(self, part: str, msg: str):
+        super().__init__(f'{part}: {msg}')
+        self.part = part
+
+
+class _Square(ast.NodeTransformer):
+    """x ** 2  ->  x * x  (the reading of the model; exact over the reals)"""
+
+    def visit_BinOp(self, node):
+        self.generic_visit(node)
+        if isinstance(node.op, ast.Pow) and isinstance(node.right, ast.Constant) and node.right.value == 2:
+            return ast.BinOp(left=node.left, op=ast.Mult(), right=node.left)
+        return node
+
+
+ZERO_LIT = '(lit (0)%Z (1)%Z (0x0.0p+0)%float)'
+PT_FIELDS = ['altitude', 'flight_level', 'true_airspeed', 'rate_of_climb', 'aircraft_mass', 'fuel_mass',
+             'ground_distance', 'flight_time', 'ground_speed', 'fuel_flow', 'longitude', 'latitude', 'azimuth', 'heading']
+PT_PROJ = ['p_alt', 'p_fl', 'p_tas', 'p_rocd', 'p_mass', 'p_fuel', 'p_dist', 'p_time', 'p_gs', 'p_ff', 'p_lon', 'p_lat',
+           'p_az', 'p_head']
+
+
+def _ast_equal(a, b) -> bool:
+    return ast.dump(a) == ast.dump(b)
+
+
+def _body_equal(fn: ast.FunctionDef, src: str) -> bool:
+    want = ast.parse(src).body[0]
+    return (ast.dump(ast.Module(body=strip_doc(fn.body), type_ignores=[]))
+            == ast.dump(ast.Module(body=strip_doc(want.body), type_ignores=[]))
+            and ast.dump(fn.args) == ast.dump(want.args))
+
+
+def _mkpt(env: dict) -> str:
+    return '(mkpt ' + ' '.join(env['pt.' + f] for f in PT_FIELDS) + ')'
+
+
+def _pt_env() -> dict:
+    return {'pt.' + f: f'({pr} p)' for f, pr in zip(PT_FIELDS, PT_PROJ)}
+
+
+# ---- storage/container.py --------------------------------------------------------------------------
+MP_LOOP = """
+for name in pt._data_dictionary:
+    if name in self._data:
+        val = self._data[name]
+        if isinstance(val, np.ndarray):
+            pt._data[name] = val[idx]
+"""
+EXPAND_SRC = """
+def _expand_capacity(self) -> None:
+    self._capacity += self.CAPACITY_EXPANSION
+    for name in self._data_dictionary:
+        if name in self._data:
+            if isinstance(self._data[name], np.ndarray):
+                self._data[name] = np.resize(self._data[name], (self._capacity,))
+"""
+APPEND_TAIL = """
+if self._size == self._capacity:
+    self._expand_capacity()
+for name, value in data.items():
+    self._data[name][self._size] = field_set[name].convert_in(value, name, 0)
+self._size += 1
+"""
+GETATTR_SRC = """
+def __getattr__(self, name: str):
+    if name in self.FIXED_FIELDS:
+        return super().__getattribute__(name)
+    if name in self._data:
+        val = self._data[name]
+        if isinstance(val, np.ndarray):
+            return val[: self._size]
+        else:
+            return val
+    else:
+        raise AttributeError(f"Container has no attribute '{name}'")
+"""
+
+
+def container_facts(repo: Path) -> dict:
+    mod = ast.parse((Path(repo) / 'src/AEIC/storage/container.py').read_text())
+    # make_point
+    part = 'storage/container.py:make_point'
+    fn = find_function(mod, 'make_point', cls='Container')
+    blocks = [s for s in strip_doc(fn.body) if isinstance(s, ast.If) and ast.unparse(s.test) == 'idx is not None']
+    if len(blocks) != 1 or blocks[0].orelse:
+        raise PartError(part, '`if idx is not None:` block not found')
+    stmts = list(blocks[0].body)
+    if not stmts or not _ast_equal(stmts[-1], ast.parse(MP_LOOP).body[0]):
+        raise PartError(part, 'the copy loop `pt._data[name] = val[idx]` changed')
+    guards = stmts[:-1]
+    bounds = norm = False
+    for g in guards:
+        if (isinstance(g, ast.If) and not g.orelse and ast.unparse(g.test) == 'idx < -self._size or idx >= self._size'
+                and len(g.body) == 1 and isinstance(g.body[0], ast.Raise)
+                and ast.unparse(g.body[0].exc).startswith('IndexError(') and not norm):
+            bounds = True
+        elif (isinstance(g, ast.If) and not g.orelse and ast.unparse(g.test) == 'idx < 0' and len(g.body) == 1
+              and _ast_equal(g.body[0], ast.parse('idx += self._size').body[0]) and bounds):
+            norm = True
+        else:
+            raise PartError(part, f'unrecognised statement before the copy loop: {ast.unparse(g)[:80]}')
+    # growth rule
+    part = 'storage/container.py:_expand_capacity/_append_from_dict'
+    cls = next(n for n in mod.body if isinstance(n, ast.ClassDef) and n.name == 'Container')
+    consts = {}
+    for st in cls.body:
+        if isinstance(st, ast.Assign) and len(st.targets) == 1 and isinstance(st.targets[0], ast.Name) \
+                and st.targets[0].id in ('STARTING_CAPACITY', 'CAPACITY_EXPANSION'):
+            if not (isinstance(st.value, ast.Constant) and isinstance(st.value.value, int) and 0 < st.value.value < 4000):
+                raise PartError(part, f'{st.targets[0].id} is not a small integer literal')
+            consts[st.targets[0].id] = st.value.value
+    if set(consts) != {'STARTING_CAPACITY', 'CAPACITY_EXPANSION'}:
+        raise PartError(part, 'capacity constants not found')
+    if not _body_equal(find_function(mod, '_expand_capacity', cls='Container'), EXPAND_SRC):
+        raise PartError(part, '_expand_capacity is not `capacity += CAPACITY_EXPANSION; np.resize(buffer, capacity)`')
+    app = strip_doc(find_function(mod, '_append_from_dict', cls='Container').body)
+    tail = ast.parse(APPEND_TAIL).body
+    if [ast.dump(x) for x in app[-len(tail):]] != [ast.dump(x) for x in tail]:
+        raise PartError(part, '_append_from_dict no longer grows when size == capacity / writes at [size] / bumps size')
+    init = find_function(mod, '__init__', cls='Container')
+    if 'self._capacity = self.STARTING_CAPACITY' not in ast.unparse(init) or 'self._size = 0' not in ast.unparse(init):
+        raise PartError(part, 'an extensible container no longer starts with STARTING_CAPACITY cells and size 0')
+    part = 'storage/container.py:__getattr__'
+    if not _body_equal(find_function(mod, '__getattr__', cls='Container'), GETATTR_SRC):
+        raise PartError(part, 'attribute reads are no longer `val[: self._size]`')
+    return {'bounds': bounds, 'norm': norm, 'start': consts['STARTING_CAPACITY'], 'expand': consts['CAPACITY_EXPANSION']}
+
+
+# ---- trajectories/trajectory.py:interpolate_time ------------------------------------------------------
+INTERP_LOOP = """
+for name, field in self._data_dictionary.items():
+    if Dimension.POINT in field.dimensions and name in self._data:
+        if Dimension.SPECIES in field.dimensions:
+            assert isinstance(self._data[name], SpeciesValues)
+            new_species_values = SpeciesValues[np.ndarray]()
+            for sp in self._data[name].keys():
+                new_species_values[sp] = np.interp(new_time, orig_time, self._data[name][sp], left=np.nan, right=np.nan)
+            new_traj._data[name] = new_species_values
+        else:
+            new_traj._data[name] = np.interp(new_time, orig_time, VALUES, left=np.nan, right=np.nan)
+    elif name in self._data:
+        new_traj._data[name] = deepcopy(self._data[name])
+"""
+
+
+def interpolate_facts(repo: Path) -> dict:
+    part = 'trajectories/trajectory.py:interpolate_time'
+    mod = ast.parse((Path(repo) / 'src/AEIC/trajectories/trajectory.py').read_text())
+    body = strip_doc(find_function(mod, 'interpolate_time', cls='Trajectory').body)
+    if len(body) != 5:
+        raise PartError(part, f'{len(body)} top-level statements instead of guard / time axis / new trajectory / loop / '
+                              'return (a short-cut path?)')
+    guard, tax, new, loop, ret = body
+    if not (isinstance(guard, ast.If) and ast.unparse(guard.test) == "'flight_time' not in self._data"
+            and len(guard.body) == 1 and isinstance(guard.body[0], ast.Raise) and not guard.orelse):
+        raise PartError(part, 'first statement is not the flight_time guard')
+    t_txt = ast.unparse(tax)
+    if t_txt == "orig_time = self._data['flight_time'][:self._size]":
+        slices_time = True
+    elif t_txt == "orig_time = self._data['flight_time']":
+        slices_time = False
+    else:
+        raise PartError(part, 'time axis: ' + t_txt[:80])
+    if ast.unparse(new) != 'new_traj = Trajectory(len(new_time), fieldsets=list(self._fieldsets))' \
+            or ast.unparse(ret) != 'return new_traj':
+        raise PartError(part, 'result construction changed')
+    slices_values = None
+    for flag, txt in ((True, 'self._data[name][: self._size]'), (False, 'self._data[name]')):
+        if _ast_equal(loop, ast.parse(INTERP_LOOP.replace('VALUES', txt)).body[0]):
+            slices_values = flag
+    if slices_values is None:
+        raise PartError(part, 'the resampling loop is not np.interp(new_time, orig_time, values, left=nan, right=nan) per field')
+    return {'slices_time': slices_time, 'slices_values': slices_values}
+
+
+# ---- trajectories/ground_track.py --------------------------------------------------------------------
+OVERSTEP_SRC = """
+def _overstep(self, distance: float) -> GroundTrack.Point:
+    lon, lat, _ = GEOD.fwd(self.waypoints[-2].longitude, self.waypoints[-2].latitude, self.azimuths[-1],
+                           distance - self.index[-2])
+    azimuth, _, _ = GEOD.inv(self.waypoints[-1].longitude, self.waypoints[-1].latitude, lon, lat)
+    return GroundTrack.Point(Location(lon, lat), azimuth)
+"""
+STEP_GUARD = "if from_distance < 0 or distance_step < 0:\n    raise GroundTrack.Exception('distances must be non-negative')"
+
+
+def ground_track_facts(repo: Path) -> dict:
+    mod = ast.parse((Path(repo) / 'src/AEIC/trajectories/ground_track.py').read_text())
+    part = 'trajectories/ground_track.py:_overstep'
+    if not _body_equal(find_function(mod, '_overstep', cls='GroundTrack'), OVERSTEP_SRC):
+        raise PartError(part, 'the continuation beyond the last waypoint is no longer GEOD.fwd from waypoint [-2] along '
+                              'azimuths[-1] by distance - index[-2]')
+    part = 'trajectories/ground_track.py:step'
+    st = strip_doc(find_function(mod, 'step', cls='GroundTrack').body)
+    if not st or not _ast_equal(st[0], ast.parse(STEP_GUARD).body[0]):
+        raise PartError(part, 'step no longer starts by refusing negative distances')
+    contains = find_function(mod, '__contains__', cls='GroundTrack')
+    if ast.unparse(strip_doc(contains.body)[0]) != 'return distance >= self.index[0] and distance <= self.index[-1]':
+        raise PartError('trajectories/ground_track.py:__contains__', 'range test of the track changed')
+    return {'from_wp': -2, 'azimuth': -1, 'offset_index': -2}
+
+
+# ---- builders/base.py:_start_point -------------------------------------------------------------------
+def start_point_def(repo: Path, nm: NumModule) -> str:
+    part = 'trajectories/builders/base.py:_start_point'
+    path = Path(repo) / 'src/AEIC/trajectories/builders/base.py'
+    mod = nm._src(path)
+    body = strip_doc(find_function(mod, '_start_point', cls='Builder').body)
+    if len(body) < 3 or ast.unparse(body[0]) != 'pt = traj.make_point()' \
+            or ast.unparse(body[1]) != 'start = self.ground_track[0]' or ast.unparse(body[-1]) != 'return pt':
+        raise PartError(part, 'frame (make_point / ground_track[0] / return pt) changed')
+    env = {'start.location.longitude': 'lon', 'start.location.latitude': 'lat', 'start.azimuth': 'az',
+           'self.initial_altitude': 'initial_altitude', 'self.starting_mass': 'starting_mass',
+           'self.total_fuel_mass': 'total_fuel_mass'}
+    slots = {f: 'zero' for f in PT_FIELDS}          # the np.zeros fill of a fresh point
+    seen = set()
+    for st in body[2:-1]:
+        if not (isinstance(st, ast.Assign) and len(st.targets) == 1 and isinstance(st.targets[0], ast.Attribute)
+                and isinstance(st.targets[0].value, ast.Name) and st.targets[0].value.id == 'pt'
+                and st.targets[0].attr in PT_FIELDS and st.targets[0].attr not in seen):
+            raise PartError(part, f'statement {ast.unparse(st)[:70]}')
+        seen.add(st.targets[0].attr)
+        try:
+            slots[st.targets[0].attr] = nm.expr(st.value, env, part).replace(ZERO_LIT, 'zero')
+        except PartError:
+            raise
+        except Untranslatable as e:
+            raise PartError(part, f'value of {st.targets[0].attr}: {e}') from e
+    return ('Definition start_point_gen (initial_altitude starting_mass total_fuel_mass lon lat az : T N) : @pt N :=\n  '
+            + '(mkpt ' + ' '.join(slots[f] for f in PT_FIELDS) + ').')
+
+
+# ---- builders/legacy.py: the loop bodies of _fly_level_change and fly_cruise ----------------------------
+EVAL_LC = ('perf = self.ac_performance.evaluate(AircraftState(altitude=pt.altitude, true_airspeed=pt.true_airspeed, '
+           'rate_of_climb=pt.rate_of_climb, aircraft_mass=pt.aircraft_mass), flight_rule)')
+EVAL_LC_END = ('perf_end = self.ac_performance.evaluate(AircraftState(altitude=pt.altitude + delta_altitude, '
+               'true_airspeed=pt.true_airspeed, rate_of_climb=pt.rate_of_climb, aircraft_mass=pt.aircraft_mass), flight_rule)')
+WX_LC = ('if self.weather is None: pt.ground_speed = fwd_tas else: pt.ground_speed = self.weather.get_ground_speed('
+         'time=self.mission.departure, gt_point=self.ground_track.location(pt.ground_distance), altitude=pt.altitude, '
+         'true_airspeed=fwd_tas, azimuth=pt.azimuth)')
+WX_CRZ = ('if self.weather is not None: pt.ground_speed = self.weather.get_ground_speed(time=self.mission.departure, '
+          'gt_point=self.ground_track.location(pt.ground_distance), altitude=pt.altitude, true_airspeed=pt.true_airspeed, '
+          'azimuth=pt.azimuth) pt.heading = pt.azimuth else: pt.ground_speed = pt.true_airspeed pt.heading = pt.azimuth')
+EVAL_CRZ = ('perf = self.ac_performance.evaluate(AircraftState(altitude=pt.altitude, true_airspeed=pt.true_airspeed, '
+            'rate_of_climb=0, aircraft_mass=pt.aircraft_mass), SimpleFlightRules.CRUISE)')
+
+
+def _loop(fn: ast.FunctionDef, part: str) -> ast.For:
+    loops = [s for s in fn.body if isinstance(s, ast.For)]
+    if len(loops) != 1 or loops[0].orelse:
+        raise PartError(part, 'expected exactly one for-loop')
+    return loops[0]
+
+
+def _fn_text(name: str, sig: str, prefix: list, result: str) -> str:
+    lines = [ln.replace(ZERO_LIT, 'zero') for ln in prefix]
+    return f'Definition {name} {sig} : @pt N :=\n' + '\n'.join(lines + ['  ' + result.replace(ZERO_LIT, 'zero')]) + '.'
+
+
+def loop_defs(repo: Path, nm: NumModule) -> list:
+    path = Path(repo) / 'src/AEIC/trajectories/builders/legacy.py'
+    mod = _Square().visit(nm._src(path))
+    ast.fix_missing_locations(mod)
+    defs = []
+
+    # -- climb / descent
+    part = 'trajectories/builders/legacy.py:_fly_level_change(loop body)'
+    fn = find_function(mod, '_fly_level_change', cls='LegacyBuilder')
+    loop = _loop(fn, part)
+    if ast.unparse(loop.target) != 'i' or ast.unparse(loop.iter) != 'range(n_points)':
+        raise PartError(part, 'loop header changed')
+    pre = [_norm(s2) for s2 in strip_doc(fn.body) if not isinstance(s2, ast.For)]
+    want_pre = ['traj.set_phase(flight_phase)',
+                'if flight_phase == FlightPhase.CLIMB: pt = self._start_point(traj) pt.true_airspeed = '
+                'min(self.ac_performance.performance_table.tas) pt.rate_of_climb = '
+                'max(self.ac_performance.performance_table.rocd) else: pt = traj.make_point(-1)',
+                'delta_altitude = (end_altitude - start_altitude) / (n_points - 1)']
+    if pre != want_pre:
+        raise PartError(part, 'set-up before the loop changed (start point / hand-over / altitude step)')
+    env = _pt_env()
+    env.update({'start_altitude': 'start_alt', 'i': 'idx', 'delta_altitude': 'delta', 'self.fuel_LHV': 'lhv',
+                'METERS_TO_FL': nm.coqname['METERS_TO_FL']})
+    holder = {}
+
+    def bind(**kw):
+        def act(e):
+            e.update(kw)
+        return act
+
+    verbatim = {
+        EVAL_LC: bind(**{'perf.true_airspeed': 'tas', 'perf.rate_of_climb': 'rocd', 'perf.fuel_flow': 'ff'}),
+        'if i == n_points - 1: traj.append(pt) break': lambda e: holder['b'].snap('last', e),
+        WX_LC: bind(**{'pt.ground_speed': 'gs'}),
+        'traj.append(pt)': lambda e: holder['b'].snap('q', e),
+        'gpt = self.ground_track.step(pt.ground_distance, dist)':
+            bind(**{'gpt.location.longitude': 'lon', 'gpt.location.latitude': 'lat', 'gpt.azimuth': 'az'}),
+        EVAL_LC_END: bind(**{'perf_end.true_airspeed': 'tas_end'}),
+    }
+    verbatim = {' '.join(k.split()): v for k, v in verbatim.items()}
+    body = Body(nm, env, part, verbatim, 'Err ESchedule')
+    holder['b'] = body
+    try:
+        nxt = body.run(loop.body, lambda e: _mkpt(e))
+    except PartError:
+        raise
+    except Untranslatable as e:
+        raise PartError(part, str(e)) from e
+    for k in ('last', 'q'):
+        if k not in body.snaps:
+            raise PartError(part, f'append of the {k} point not found')
+    sig_p = '(start_alt idx delta : T N) (p : @pt N) (tas rocd ff : T N)'
+    pre_l, env_l = body.snaps['last']
+    defs.append(_fn_text('lc_last_gen', sig_p, pre_l, _mkpt(env_l)))
+    pre_q, env_q = body.snaps['q']
+    defs.append(_fn_text('lc_q_gen', sig_p + ' (gs : T N)', pre_q, _mkpt(env_q)))
+    if 'fwd_tas' not in env_q:
+        raise PartError(part, 'fwd_tas not computed before the point is appended')
+    defs.append('Definition fwd_tas_gen (tas rocd : T N) : T N :=\n'
+                + '\n'.join(ln for ln in pre_q if 'fwd_tas' in ln.split(':=')[0]) + '\n  ' + env_q['fwd_tas'] + '.')
+    defs.append('Definition lc_next_gen (start_alt idx delta lhv : T N) (p : @pt N) (tas rocd ff gs lon lat az tas_end : T N) '
+                ': @pt N :=\n' + nxt.replace(ZERO_LIT, 'zero') + '.')
+
+    # -- cruise
+    part = 'trajectories/builders/legacy.py:fly_cruise(loop body)'
+    fn = find_function(mod, 'fly_cruise', cls='LegacyBuilder')
+    loop = _loop(fn, part)
+    if ast.unparse(loop.iter) != 'range(n_cruise)':
+        raise PartError(part, 'loop header changed')
+    pre = [_norm(s2) for s2 in strip_doc(fn.body) if not isinstance(s2, ast.For)]
+    want_pre = ['traj.set_phase(FlightPhase.CRUISE)', 'pt = traj.make_point(-1)', 'start_dist = pt.ground_distance',
+                'pt.altitude = self.crz_start_altitude', 'pt.flight_level = pt.altitude * METERS_TO_FL',
+                'end_dist = self.ground_track.total_distance - self.descent_dist_approx',
+                'n_cruise = int(1 / self.frac_step_crz)',
+                'ground_distance_step = (end_dist - start_dist) / (n_cruise - 1)', 'pt.rate_of_climb = 0']
+    if pre != want_pre:
+        raise PartError(part, 'set-up before the loop changed (hand-over / cruise level / step length)')
+    env = _pt_env()
+    env.update({'ground_distance_step': 'step'})
+    holder2 = {}
+    verbatim = {
+        WX_CRZ: bind(**{'pt.ground_speed': 'gs', 'pt.heading': '(p_az p)'}),
+        'traj.append(pt)': lambda e: holder2['b'].snap('q', e),
+        'gpt = self.ground_track.step(pt.ground_distance, ground_distance_step)':
+            bind(**{'gpt.location.longitude': 'lon', 'gpt.location.latitude': 'lat', 'gpt.azimuth': 'az'}),
+        EVAL_CRZ: bind(**{'perf.true_airspeed': 'tas', 'perf.rate_of_climb': 'rocd', 'perf.fuel_flow': 'ff'}),
+    }
+    verbatim = {' '.join(k.split()): v for k, v in verbatim.items()}
+    body2 = Body(nm, env, part, verbatim, 'Err ESchedule')
+    holder2['b'] = body2
+    try:
+        nxt2 = body2.run(loop.body, lambda e: _mkpt(e))
+    except PartError:
+        raise
+    except Untranslatable as e:
+        raise PartError(part, str(e)) from e
+    if 'q' not in body2.snaps:
+        raise PartError(part, 'append of the cruise point not found')
+    pre_q, env_q = body2.snaps['q']
+    defs.append(_fn_text('crz_q_gen', '(p : @pt N) (gs : T N)', pre_q, _mkpt(env_q)))
+    defs.append('Definition crz_next_gen (step : T N) (p : @pt N) (gs lon lat az tas rocd ff : T N) : @pt N :=\n'
+                + nxt2.replace(ZERO_LIT, 'zero') + '.')
+    return defs
+
+
 def extract(repo: Path) -> str:
     units = Path(repo) / 'src/AEIC/units.py'
     legacy = Path(repo) / 'src/AEIC/trajectories/builders/legacy.py'
@@ -189,10 +563,28 @@ def extract(repo: Path) -> str:
     nm.raw('Definition calc_gen (tas ff total_dist lf max_payload empty_mass max_mass : T N) : T N * T N :=\n'
            + calc_text + '.')
 
+    nm.raw(start_point_def(repo, nm))
+    for d in loop_defs(repo, nm):
+        nm.raw(d)
+    cf, itf, gtf = container_facts(repo), interpolate_facts(repo), ground_track_facts(repo)
+    from translator import c17_extract
+    bf = c17_extract.facts(repo)
+
+    def b(x):
+        return 'true' if x else 'false'
+
+    data = ('End Gen.\n\n(* shapes read from storage/container.py, trajectory.py, ground_track.py, builders/base.py *)\n'
+            f'Definition g_mp_bounds_checked : bool := {b(cf["bounds"])}.\n'
+            f'Definition g_mp_normalises_negative : bool := {b(cf["norm"])}.\n'
+            f'Definition g_start_capacity : nat := {cf["start"]}.\nDefinition g_capacity_expansion : nat := {cf["expand"]}.\n'
+            f'Definition g_interp_slices_time : bool := {b(itf["slices_time"])}.\n'
+            f'Definition g_interp_slices_values : bool := {b(itf["slices_values"])}.\n'
+            f'Definition g_overstep : Z * Z * Z := (({gtf["from_wp"]})%Z, ({gtf["azimuth"]})%Z, ({gtf["offset_index"]})%Z).\n'
+            f'Definition g_given_mass_fuel_derived : bool := {b(bf["given_fix"])}.\n')
     return ('(* generated by translator/c02_extract.py from the current source tree — do not edit *)\n'
             'From Coq Require Import ZArith PrimFloat Bool.\nFrom AV Require Import lib.Num model.C02_Model.\n'
             'Section Gen.\nContext {N : Num}.\nLocal Open Scope num_scope.\nLocal Open Scope bool_scope.\n\n'
-            + '\n\n'.join(nm.defs) + '\n\nEnd Gen.\n')
+            + '\n\n'.join(nm.defs) + '\n\n' + data)
 
 
 if __name__ == '__main__':
